@@ -33,6 +33,7 @@ def write_replay(prop, seed, tier, rec, n):
         "run_seed": plan.get("run_seed"), "index": plan.get("index"),
         "pythonhashseed": os.environ.get("PYTHONHASHSEED"),
         "plan": plan,
+        "plans": rec.get("plans"),
         "expect": {"class": rec["violation"]["class"], "at_step": rec["violation"]["step"],
                    "detail": json.loads(jdump(rec["violation"]["detail"]))},
         "fingerprint": rec["fingerprint"], "digest": rec["digest"],
